@@ -160,3 +160,26 @@ def symbolic_constants_in_arithmetic(stms, consts=()):
                         if c and c not in defined:
                             bad.add(c)
     return bad
+
+
+def antimonotone_domain_sigs(stms, prefix):
+    """signatures named <prefix>* that occur under `not`, or in the condition of a conditional literal, in the body of
+    a rule whose head predicate is named <prefix>*"""
+    out = set()
+    for s in stms:
+        if s.ast_type != ASTType.Rule or s.head.ast_type != ASTType.Literal or s.head.atom.ast_type != ASTType.SymbolicAtom:
+            continue
+        try:
+            if not sig_of_atom(s.head.atom)[0].startswith(prefix):
+                continue
+        except ValueError:
+            continue
+        for b in s.body:
+            if b.ast_type == ASTType.Literal and b.sign == Sign.Negation:
+                out |= {g for g in all_sigs(b) if g[0].startswith(prefix)}
+            elif b.ast_type == ASTType.ConditionalLiteral:
+                for c in b.condition:
+                    out |= {g for g in all_sigs(c) if g[0].startswith(prefix)}
+                if b.literal.sign == Sign.Negation:
+                    out |= {g for g in all_sigs(b.literal) if g[0].startswith(prefix)}
+    return out
